@@ -1,0 +1,186 @@
+//go:build verif
+
+package coinset
+
+// Contracts for the deductive verifier in /verif (comment-only; build tag verif).
+
+//@ func coinset.NewCoinSet
+//@   requires forall k :: 0 <= k && k < len(coins) ==> coins[k] != nil
+//@   ensures result != nil && fresh(result) && result.coinList != nil && fresh(result.coinList) && list.coins(*result.coinList)
+//@   ensures result.totalValue == list.sumv(*result.coinList) && result.totalValueAge == list.sumva(*result.coinList) && list.len(*result.coinList) == len(coins)
+//@   ensures $calls_PushCoin == len(coins)
+//@   modifies nothing
+//@   loop 1 invariant newCoinSet != nil && fresh(newCoinSet) && newCoinSet.coinList != nil && fresh(newCoinSet.coinList) && list.coins(*newCoinSet.coinList)
+//@   loop 1 invariant newCoinSet.totalValue == list.sumv(*newCoinSet.coinList) && newCoinSet.totalValueAge == list.sumva(*newCoinSet.coinList) && list.len(*newCoinSet.coinList) == $i && $calls_PushCoin == $i
+//@   assert after PushCoin#1: $arg0 == newCoinSet && $arg1.tag == coins[$i1].tag && $arg1.ref == coins[$i1].ref
+
+//@ func coinset.(*CoinSet).Coins
+//@   requires cs.coinList != nil && list.coins(*cs.coinList)
+//@   ensures len(result) == list.len(*cs.coinList) && fresh(result)
+//@   ensures forall k :: 0 <= k && k < len(result) ==> result[k].tag == list.tagat(*cs.coinList, k) && result[k].ref == list.refat(*cs.coinList, k) && result[k] != nil
+//@   modifies nothing
+//@   alloc list.len(*cs.coinList) + 8
+//@   loop 1 invariant 0 <= i && i <= list.len(*cs.coinList) && len(coins) == list.len(*cs.coinList) && fresh(coins) && (e == nil ==> i >= list.len(*cs.coinList))
+//@   loop 1 invariant e != nil ==> e.list == cs.coinList && list.idx(*cs.coinList, e.ref) == i && i < list.len(*cs.coinList) && e.Value != nil && implements(e.Value, "coinset.Coin") && e.Value.tag == list.tagat(*cs.coinList, i) && e.Value.ref == list.refat(*cs.coinList, i)
+//@   loop 1 invariant forall k :: 0 <= k && k < i ==> coins[k].tag == list.tagat(*cs.coinList, k) && coins[k].ref == list.refat(*cs.coinList, k) && coins[k] != nil
+//@   loop 1 decreases list.len(*cs.coinList) - i
+
+//@ func coinset.(*CoinSet).PushCoin
+//@   requires cs.coinList != nil && c != nil && list.coins(*cs.coinList)
+//@   requires cs.totalValue == list.sumv(*cs.coinList) && cs.totalValueAge == list.sumva(*cs.coinList)
+//@   ensures cs.coinList == old(cs.coinList) && list.coins(*cs.coinList) && list.len(*cs.coinList) == old(list.len(*cs.coinList)) + 1
+//@   ensures cs.totalValue == list.sumv(*cs.coinList) && cs.totalValueAge == list.sumva(*cs.coinList)
+//@   ensures cs.totalValue == old(cs.totalValue) + coin.v(c.tag, c.ref) && cs.totalValueAge == old(cs.totalValueAge) + coin.va(c.tag, c.ref)
+//@   ensures list.tagat(*cs.coinList, old(list.len(*cs.coinList))) == c.tag && list.refat(*cs.coinList, old(list.len(*cs.coinList))) == c.ref
+//@   ensures forall k :: 0 <= k && k < old(list.len(*cs.coinList)) ==> list.tagat(*cs.coinList, k) == old(list.tagat(*cs.coinList, k)) && list.refat(*cs.coinList, k) == old(list.refat(*cs.coinList, k))
+//@   modifies cs.totalValue, cs.totalValueAge, *cs.coinList
+
+//@ func coinset.(*CoinSet).removeElement
+//@   requires cs.coinList != nil && e != nil && e.list == cs.coinList && list.coins(*cs.coinList) && implements(e.Value, "coinset.Coin") && e.Value != nil
+//@   requires cs.totalValue == list.sumv(*cs.coinList) && cs.totalValueAge == list.sumva(*cs.coinList)
+//@   ensures cs.coinList == old(cs.coinList) && list.coins(*cs.coinList) && list.len(*cs.coinList) == old(list.len(*cs.coinList)) - 1
+//@   ensures cs.totalValue == list.sumv(*cs.coinList) && cs.totalValueAge == list.sumva(*cs.coinList)
+//@   ensures result.tag == old(e.Value.tag) && result.ref == old(e.Value.ref)
+//@   modifies cs.totalValue, cs.totalValueAge, *cs.coinList, *e
+
+//@ func coinset.(*CoinSet).PopCoin
+//@   requires cs.coinList != nil && list.coins(*cs.coinList)
+//@   requires cs.totalValue == list.sumv(*cs.coinList) && cs.totalValueAge == list.sumva(*cs.coinList)
+//@   ensures cs.coinList == old(cs.coinList) && list.coins(*cs.coinList)
+//@   ensures cs.totalValue == list.sumv(*cs.coinList) && cs.totalValueAge == list.sumva(*cs.coinList)
+//@   ensures old(list.len(*cs.coinList)) == 0 ==> result == nil && *cs.coinList == old(*cs.coinList) && cs.totalValue == old(cs.totalValue) && cs.totalValueAge == old(cs.totalValueAge)
+//@   ensures old(list.len(*cs.coinList)) > 0 ==> list.len(*cs.coinList) == old(list.len(*cs.coinList)) - 1 && $calls_Back == 1 && $calls_removeElement == 1
+
+//@ func coinset.(*CoinSet).ShiftCoin
+//@   requires cs.coinList != nil && list.coins(*cs.coinList)
+//@   requires cs.totalValue == list.sumv(*cs.coinList) && cs.totalValueAge == list.sumva(*cs.coinList)
+//@   ensures cs.coinList == old(cs.coinList) && list.coins(*cs.coinList)
+//@   ensures cs.totalValue == list.sumv(*cs.coinList) && cs.totalValueAge == list.sumva(*cs.coinList)
+//@   ensures old(list.len(*cs.coinList)) == 0 ==> result == nil && *cs.coinList == old(*cs.coinList) && cs.totalValue == old(cs.totalValue) && cs.totalValueAge == old(cs.totalValueAge)
+//@   ensures old(list.len(*cs.coinList)) > 0 ==> list.len(*cs.coinList) == old(list.len(*cs.coinList)) - 1 && $calls_Front == 1 && $calls_removeElement == 1
+
+//@ func coinset.(*CoinSet).Num
+//@   requires cs.coinList != nil
+//@   ensures result == list.len(*cs.coinList)
+//@   modifies nothing
+
+//@ func coinset.(*CoinSet).TotalValue
+//@   ensures value == cs.totalValue
+//@   modifies nothing
+
+//@ func coinset.(*CoinSet).TotalValueAge
+//@   ensures valueAge == cs.totalValueAge
+//@   modifies nothing
+
+//@ func coinset.satisfiesTargetValue
+//@   ensures result == (totalValue == targetValue || totalValue >= targetValue + minChange)
+//@   modifies nothing
+
+//@ func coinset.NewMsgTxWithInputCoins
+//@   requires inputCoins != nil
+//@   ensures result != nil && fresh(result) && $calls_Coins == 1 && len(result.TxIn) == len($ret_Coins#1)
+//@   ensures forall k :: 0 <= k && k < len(result.TxIn) ==> result.TxIn[k] != nil && result.TxIn[k].Sequence == 4294967295 && len(result.TxIn[k].SignatureScript) == 0
+//@   ensures forall k :: 0 <= k && k < len(result.TxIn) ==> result.TxIn[k].PreviousOutPoint.Index == coin.idx($ret_Coins#1[k].tag, $ret_Coins#1[k].ref) && (forall j :: 0 <= j && j < 32 ==> result.TxIn[k].PreviousOutPoint.Hash[j] == coin.hb($ret_Coins#1[k].tag, $ret_Coins#1[k].ref, j))
+//@   loop 1 invariant msgTx != nil && fresh(msgTx) && len(msgTx.TxIn) == len(coins) && fresh(msgTx.TxIn) && $calls_Coins == 1
+//@   loop 1 invariant forall k :: 0 <= k && k < len(coins) ==> coins[k] != nil
+//@   loop 1 invariant forall k :: 0 <= k && k < $i ==> msgTx.TxIn[k] != nil && allocated(msgTx.TxIn[k]) && msgTx.TxIn[k].Sequence == 4294967295 && len(msgTx.TxIn[k].SignatureScript) == 0
+//@   loop 1 invariant forall k :: 0 <= k && k < $i ==> msgTx.TxIn[k].PreviousOutPoint.Index == coin.idx(coins[k].tag, coins[k].ref) && (forall j :: 0 <= j && j < 32 ==> msgTx.TxIn[k].PreviousOutPoint.Hash[j] == coin.hb(coins[k].tag, coins[k].ref, j))
+//@   assert after NewMsgTx#1: $arg0 == txVersion
+//@   assert after Hash#1: $recv.tag == coins[$i1].tag && $recv.ref == coins[$i1].ref
+//@   assert after Index#1: $recv.tag == coins[$i1].tag && $recv.ref == coins[$i1].ref
+
+//@ func coinset.(MinIndexCoinSelector).CoinSelect
+//@   requires forall k :: 0 <= k && k < len(coins) ==> coins[k] != nil
+//@   ensures err != nil ==> result0 == nil && err == ErrCoinsNoSelectionAvailable
+//@   ensures err == nil ==> typeis(result0, "coinset.*CoinSet") && unbox(result0, "coinset.*CoinSet") != nil && unbox(result0, "coinset.*CoinSet").coinList != nil && list.coins(*unbox(result0, "coinset.*CoinSet").coinList)
+//@   ensures err == nil ==> list.len(*unbox(result0, "coinset.*CoinSet").coinList) >= 1 && list.len(*unbox(result0, "coinset.*CoinSet").coinList) <= s.MaxInputs && list.len(*unbox(result0, "coinset.*CoinSet").coinList) <= len(coins)
+//@   ensures err == nil ==> unbox(result0, "coinset.*CoinSet").totalValue == list.sumv(*unbox(result0, "coinset.*CoinSet").coinList) && unbox(result0, "coinset.*CoinSet").totalValueAge == list.sumva(*unbox(result0, "coinset.*CoinSet").coinList)
+//@   ensures err == nil ==> (unbox(result0, "coinset.*CoinSet").totalValue == targetValue || unbox(result0, "coinset.*CoinSet").totalValue >= targetValue + s.MinChangeAmount)
+//@   ensures err == nil ==> forall k :: 0 <= k && k < list.len(*unbox(result0, "coinset.*CoinSet").coinList) ==> list.tagat(*unbox(result0, "coinset.*CoinSet").coinList, k) == coins[k].tag && list.refat(*unbox(result0, "coinset.*CoinSet").coinList, k) == coins[k].ref
+//@   modifies nothing
+//@   loop 1 invariant 0 <= n && n <= len(coins) && n <= s.MaxInputs || n == 0
+//@   loop 1 invariant cs != nil && fresh(cs) && cs.coinList != nil && fresh(cs.coinList) && list.coins(*cs.coinList) && list.len(*cs.coinList) == n
+//@   loop 1 invariant cs.totalValue == list.sumv(*cs.coinList) && cs.totalValueAge == list.sumva(*cs.coinList)
+//@   loop 1 invariant n > 0 ==> !(cs.totalValue == targetValue || cs.totalValue >= targetValue + s.MinChangeAmount)
+//@   loop 1 invariant forall k :: 0 <= k && k < n ==> list.tagat(*cs.coinList, k) == coins[k].tag && list.refat(*cs.coinList, k) == coins[k].ref
+//@   loop 1 decreases len(coins) - n
+//@   assert after PushCoin#1: $arg1.tag == coins[n].tag && $arg1.ref == coins[n].ref
+
+//@ func coinset.(MinNumberCoinSelector).CoinSelect
+//@   requires forall k :: 0 <= k && k < len(coins) ==> coins[k] != nil
+//@   ensures $calls_CoinSelect == 1 && $calls_Sort == 1 && $calls_Reverse == 1
+//@   ensures result0 == $ret0_CoinSelect#1 && err == $ret1_CoinSelect#1
+//@   ensures err != nil ==> result0 == nil && err == ErrCoinsNoSelectionAvailable
+//@   ensures err == nil ==> typeis(result0, "coinset.*CoinSet") && unbox(result0, "coinset.*CoinSet") != nil && unbox(result0, "coinset.*CoinSet").coinList != nil && list.coins(*unbox(result0, "coinset.*CoinSet").coinList)
+//@   ensures err == nil ==> list.len(*unbox(result0, "coinset.*CoinSet").coinList) >= 1 && list.len(*unbox(result0, "coinset.*CoinSet").coinList) <= s.MaxInputs && list.len(*unbox(result0, "coinset.*CoinSet").coinList) <= len(coins)
+//@   ensures err == nil ==> unbox(result0, "coinset.*CoinSet").totalValue == list.sumv(*unbox(result0, "coinset.*CoinSet").coinList) && (unbox(result0, "coinset.*CoinSet").totalValue == targetValue || unbox(result0, "coinset.*CoinSet").totalValue >= targetValue + s.MinChangeAmount)
+//@   ensures err == nil ==> forall k :: 0 <= k && k < list.len(*unbox(result0, "coinset.*CoinSet").coinList) ==> exists j :: 0 <= j && j < len(coins) && list.tagat(*unbox(result0, "coinset.*CoinSet").coinList, k) == coins[j].tag && list.refat(*unbox(result0, "coinset.*CoinSet").coinList, k) == coins[j].ref
+//@   modifies nothing
+//@   assert after CoinSelect#1: $arg0.MaxInputs == s.MaxInputs && $arg0.MinChangeAmount == s.MinChangeAmount && $arg1 == targetValue && len($arg2) == len(coins) && fresh($arg2)
+
+//@ func coinset.(MaxValueAgeCoinSelector).CoinSelect
+//@   requires forall k :: 0 <= k && k < len(coins) ==> coins[k] != nil
+//@   ensures $calls_CoinSelect == 1 && $calls_Sort == 1 && $calls_Reverse == 1
+//@   ensures result0 == $ret0_CoinSelect#1 && err == $ret1_CoinSelect#1
+//@   ensures err != nil ==> result0 == nil && err == ErrCoinsNoSelectionAvailable
+//@   ensures err == nil ==> typeis(result0, "coinset.*CoinSet") && unbox(result0, "coinset.*CoinSet") != nil && unbox(result0, "coinset.*CoinSet").coinList != nil && list.coins(*unbox(result0, "coinset.*CoinSet").coinList)
+//@   ensures err == nil ==> list.len(*unbox(result0, "coinset.*CoinSet").coinList) >= 1 && list.len(*unbox(result0, "coinset.*CoinSet").coinList) <= s.MaxInputs && list.len(*unbox(result0, "coinset.*CoinSet").coinList) <= len(coins)
+//@   ensures err == nil ==> unbox(result0, "coinset.*CoinSet").totalValue == list.sumv(*unbox(result0, "coinset.*CoinSet").coinList) && (unbox(result0, "coinset.*CoinSet").totalValue == targetValue || unbox(result0, "coinset.*CoinSet").totalValue >= targetValue + s.MinChangeAmount)
+//@   ensures err == nil ==> forall k :: 0 <= k && k < list.len(*unbox(result0, "coinset.*CoinSet").coinList) ==> exists j :: 0 <= j && j < len(coins) && list.tagat(*unbox(result0, "coinset.*CoinSet").coinList, k) == coins[j].tag && list.refat(*unbox(result0, "coinset.*CoinSet").coinList, k) == coins[j].ref
+//@   modifies nothing
+//@   assert after CoinSelect#1: $arg0.MaxInputs == s.MaxInputs && $arg0.MinChangeAmount == s.MinChangeAmount && $arg1 == targetValue && len($arg2) == len(coins) && fresh($arg2)
+
+//@ func coinset.(byAmount).Less
+//@   requires 0 <= i && i < len(a) && 0 <= j && j < len(a) && a[i] != nil && a[j] != nil
+//@   ensures result == (coin.v(a[i].tag, a[i].ref) < coin.v(a[j].tag, a[j].ref))
+//@   modifies nothing
+
+//@ func coinset.(byValueAge).Less
+//@   requires 0 <= i && i < len(a) && 0 <= j && j < len(a) && a[i] != nil && a[j] != nil
+//@   ensures result == (coin.va(a[i].tag, a[i].ref) < coin.va(a[j].tag, a[j].ref))
+//@   modifies nothing
+
+//@ func coinset.(byAmount).Swap
+//@   requires 0 <= i && i < len(a) && 0 <= j && j < len(a)
+//@   modifies a[*]
+
+//@ func coinset.(byValueAge).Swap
+//@   requires 0 <= i && i < len(a) && 0 <= j && j < len(a)
+//@   modifies a[*]
+
+//@ func coinset.(byAmount).Len
+//@   ensures result == len(a)
+//@   modifies nothing
+
+//@ func coinset.(byValueAge).Len
+//@   ensures result == len(a)
+//@   modifies nothing
+
+//@ func coinset.(MinPriorityCoinSelector).CoinSelect
+//@   requires forall k :: 0 <= k && k < len(coins) ==> coins[k] != nil
+//@   ensures err != nil ==> result0 == nil && err == ErrCoinsNoSelectionAvailable
+//@   ensures err == nil ==> typeis(result0, "coinset.*CoinSet") && unbox(result0, "coinset.*CoinSet") != nil && unbox(result0, "coinset.*CoinSet").coinList != nil && list.coins(*unbox(result0, "coinset.*CoinSet").coinList)
+//@   ensures err == nil ==> unbox(result0, "coinset.*CoinSet").totalValue == list.sumv(*unbox(result0, "coinset.*CoinSet").coinList) && unbox(result0, "coinset.*CoinSet").totalValueAge == list.sumva(*unbox(result0, "coinset.*CoinSet").coinList)
+//@   ensures err == nil ==> list.len(*unbox(result0, "coinset.*CoinSet").coinList) >= 1
+//@   ensures err == nil ==> list.len(*unbox(result0, "coinset.*CoinSet").coinList) <= s.MaxInputs
+//@   modifies nothing
+//@   decreases len(coins)
+//@   loop 1 invariant 0 <= i && i <= len(possibleCoins) && len(possibleCoins) == len(coins) && fresh(possibleCoins) && cutoffIndex == -1
+//@   loop 1 invariant forall k :: 0 <= k && k < len(possibleCoins) ==> possibleCoins[k] != nil
+//@   loop 1 decreases len(possibleCoins) - i
+//@   loop 2 invariant 0 <= cutoffIndex && cutoffIndex <= i && i <= len(possibleCoins) && len(possibleCoins) == len(coins) && fresh(possibleCoins)
+//@   loop 2 invariant forall k :: 0 <= k && k < len(possibleCoins) ==> possibleCoins[k] != nil
+//@   loop 2 decreases len(possibleCoins) - i
+//@   loop 3 invariant 1 <= numLow && 0 <= cutoffIndex && cutoffIndex <= i && i < len(possibleCoins) && len(possibleCoins) == len(coins) && fresh(possibleCoins)
+//@   loop 3 invariant forall k :: 0 <= k && k < len(possibleCoins) ==> possibleCoins[k] != nil
+//@   loop 3 decreases cutoffIndex - numLow + 1
+//@   loop 4 invariant allHigh != nil && fresh(allHigh) && allHigh.coinList != nil && fresh(allHigh.coinList) && list.coins(*allHigh.coinList)
+//@   loop 4 invariant allHigh.totalValue == list.sumv(*allHigh.coinList) && allHigh.totalValueAge == list.sumva(*allHigh.coinList)
+//@   loop 4 invariant list.len(*allHigh.coinList) == i + 1 - cutoffIndex + $i && $i <= len($ret_Coins#2) && len($ret_Coins#2) <= numLow
+//@   loop 4 invariant forall k :: 0 <= k && k < len($ret_Coins#2) ==> $ret_Coins#2[k] != nil
+//@   loop 5 invariant 0 <= n && n <= cutoffIndex && cutoffIndex <= len(possibleCoins) && fresh(possibleCoins)
+//@   loop 5 invariant forall k :: 0 <= k && k < len(possibleCoins) ==> possibleCoins[k] != nil
+//@   loop 5 invariant extendedCoins != nil && fresh(extendedCoins) && extendedCoins.coinList != nil && fresh(extendedCoins.coinList) && list.coins(*extendedCoins.coinList)
+//@   loop 5 invariant extendedCoins.totalValue == list.sumv(*extendedCoins.coinList) && extendedCoins.totalValueAge == list.sumva(*extendedCoins.coinList)
+//@   loop 5 invariant list.len(*extendedCoins.coinList) >= 1 && list.len(*extendedCoins.coinList) <= s.MaxInputs
+//@   loop 5 decreases cutoffIndex - n
